@@ -336,6 +336,8 @@ def feature_counts(cases):
                 walk(n)
                 if any(r in ids[k + 1:] for r in expect.inst_refs(n)):
                     inc('scene node instantiating a later top-level node')
+        for k in d.get('split_libraries', []):
+            inc('library written as two elements')
         if d.get('foreign'):
             inc('foreign-namespace extras')
         if d.get('prefixed'):
